@@ -476,6 +476,8 @@ def ep_operand(prog: Program) -> RuleResult:
     r = RuleResult("EP-OPERAND", "a value-producing node flags its result false from the value's truth only in condition position", floor=2)
     cbv = prog.cls("symbolic.CanBehaveLikeAVariable").qual
     seen = set()
+    const_false: Dict[str, list] = {}
+    judged: Set[str] = set()
     for c in concrete_classes(prog):
         if not prog.is_subclass(c.qual, cbv):
             continue
@@ -501,6 +503,10 @@ def ep_operand(prog: Program) -> RuleResult:
                         and not any(isinstance(x, ast.Call) and isinstance(x.func, ast.Name) and x.func.id == "OperationResult" for x in ast.walk(n.stmt.value)):
                     sites_.append((n.stmt.value, n.stmt.value))  # the helper's returned flag
                 for call, flag in sites_:
+                    if isinstance(flag, ast.Constant) and flag.value is False and isinstance(call, ast.Call):
+                        const_false.setdefault(f.qual, []).append((f, call))
+                    elif isinstance(call, ast.Call):
+                        judged.add(f.qual)
                     if isinstance(flag, ast.Attribute) and isinstance(flag.value, ast.Name) and flag.value.id == f.params[0]:
                         # node state written only in condition position: as an operand the node would report whatever an earlier use left there
                         r.fail(f"{f.short}#sticky-flag", f"{f.module.relpath}:{call.lineno}", src(call)[:100],
@@ -516,9 +522,28 @@ def ep_operand(prog: Program) -> RuleResult:
                         continue
                     # every assignment of a value-truth to the flag must be control-dependent on a condition-position test
                     ok = True
+
+                    def guard_exprs(st_):
+                        """the conditions under which this assignment gives the flag the value's truth: dominating if-tests and the other
+                        conjuncts of `flag = G and not bool(value)`; locals and the node's own properties are expanded"""
+                        raw = [t.stmt.test for t in cfg.nodes if t.kind == "test" and isinstance(t.stmt, ast.If) and t.true_succ is not None and cfg.dominates(t.true_succ, st_.id)]
+                        v_ = st_.stmt.value
+                        if isinstance(v_, ast.BoolOp) and isinstance(v_.op, ast.And):
+                            raw += [o for o in v_.values if "bool(" not in src(o)]
+                        out_ = []
+                        for g_ in raw:
+                            todo_ = [g_]
+                            # a local that holds the test (hoisted out of a loop)
+                            if isinstance(g_, ast.Name):
+                                defs_ = [x.value for x in walk_local(f.node) if isinstance(x, ast.Assign) and len(x.targets) == 1 and isinstance(x.targets[0], ast.Name) and x.targets[0].id == g_.id]
+                                if len(defs_) == 1:
+                                    todo_.append(defs_[0])
+                            for y_ in todo_:
+                                out_ += _expanded_test(prog, c.qual, f, y_)
+                        return out_
+
                     for st in [m for m in cfg.nodes if isinstance(m.stmt, ast.Assign) and isinstance(flag, ast.Name) and src(m.stmt.targets[0]) == flag.id and "bool(" in src(m.stmt.value)]:
-                        guarded = any(t.kind == "test" and isinstance(t.stmt, ast.If) and t.true_succ is not None and cfg.dominates(t.true_succ, st.id)
-                                      and any("_parent_" in src(e) or "_conditions_root_" in src(e) for e in _expanded_test(prog, c.qual, f, t.stmt.test)) for t in cfg.nodes)
+                        guarded = any("_parent_" in src(e) or "_conditions_root_" in src(e) for e in guard_exprs(st))
                         ok = ok and guarded
                     if not isinstance(flag, ast.Name):
                         ok = False
@@ -527,15 +552,15 @@ def ep_operand(prog: Program) -> RuleResult:
                     lo = prog.cls("symbolic.LogicalOperator").qual
                     logical = [x for x in concrete_classes(prog) if prog.is_subclass(x.qual, lo)]
                     for st in [m for m in cfg.nodes if isinstance(m.stmt, ast.Assign) and isinstance(flag, ast.Name) and src(m.stmt.targets[0]) == flag.id and "bool(" in src(m.stmt.value)]:
-                        tests = [t for t in cfg.nodes if t.kind == "test" and isinstance(t.stmt, ast.If) and t.true_succ is not None and cfg.dominates(t.true_succ, st.id)
-                                 and any("_parent_" in src(e) for e in _expanded_test(prog, c.qual, f, t.stmt.test))]
+                        gexprs = guard_exprs(st)
+                        tests = [e for e in gexprs if "_parent_" in src(e)]
                         covered = set()
                         root_ok = False
                         qod = prog.cls("symbolic.QueryObjectDescriptor").qual
                         queries = [x for x in concrete_classes(prog) if prog.is_subclass(x.qual, qod)]
                         qcovered = set()
-                        for t in tests:
-                            for e in _expanded_test(prog, c.qual, f, t.stmt.test):
+                        for t in [0]:
+                            for e in gexprs:
                                 root_ok = root_ok or "_conditions_root_" in src(e)
                                 # (isinstance(<parent>, Q) and <parent>._child_ is self) - conjuncts of one `and`
                                 for bo in [x for x in ast.walk(e) if isinstance(x, ast.BoolOp) and isinstance(x.op, ast.And)]:
@@ -552,11 +577,11 @@ def ep_operand(prog: Program) -> RuleResult:
                                         covered |= {x.name for x in logical if q and prog.is_subclass(x.qual, q)}
                         missing = sorted({x.name for x in logical} - covered)
                         qmissing = sorted({x.name for x in queries} - qcovered)
-                        r.check(not qmissing, f"{f.short}#nested-query-condition", f"{f.module.relpath}:{st.lineno}", src(tests[0].stmt.test)[:100] if tests else "",
+                        r.check(not qmissing, f"{f.short}#nested-query-condition", f"{f.module.relpath}:{st.lineno}", src(tests[0])[:100] if tests else "",
                                 f"the whole condition of a query ({', '.join(x.name for x in queries)}) counts as a condition position wherever the query stands",
                                 f"a value that is the only condition of a nested query ({qmissing}) is not recognised as a condition: the conditions root is looked up from the root of the whole "
                                 f"expression, i.e. the outermost query; x == an(entity(y, p(y))) keeps every y, whatever p returns")
-                        r.check(not missing and root_ok, f"{f.short}#condition-positions-complete", f"{f.module.relpath}:{st.lineno}", src(tests[0].stmt.test)[:100] if tests else "",
+                        r.check(not missing and root_ok, f"{f.short}#condition-positions-complete", f"{f.module.relpath}:{st.lineno}", src(tests[0])[:100] if tests else "",
                                 f"all {len(logical)} logical operators and the conditions root count as condition positions",
                                 f"a bound value standing as the operand of {missing or 'the conditions root'} is never flagged false: not_(p) for an already bound predicate result p "
                                 f"always reports true-then-negated, so or_(p, not_(p)) loses every binding with p false")
@@ -564,6 +589,18 @@ def ep_operand(prog: Program) -> RuleResult:
                             "the value's truth decides the flag only where the node is a condition",
                             "the result is flagged false whenever the produced value is falsy, wherever the node stands: as an operand of a comparator (which keeps true operand "
                             "results only) a legitimate value such as 0, '' or an empty collection is dropped - and_(x >= 0, x < 3) over [0, 1, 2] loses 0")
+    # a node that judges the truth of its value on one path does so on every path that emits a value of its own: the values a variable or
+    # literal takes from its domain stand as a condition just like the bound ones (entity(x, x.n > 0, False))
+    for q in sorted(judged & set(const_false)):
+        f, call = const_false[q][0]
+        binds_own = any(isinstance(k, ast.Attribute) and k.attr == "_id_" and isinstance(k.value, ast.Name) and k.value.id == f.params[0]
+                        for d in ast.walk(call.args[0]) if isinstance(d, ast.Dict) for k in d.keys if k is not None)
+        if binds_own:
+            r.fail(f"{f.short}#every-own-value-judged", f"{f.module.relpath}:{call.lineno}", src(call)[:100],
+                   "this emission binds a value of the node itself and flags it true unconditionally, while the node's other emissions judge the value's truth in condition position: "
+                   "a literal or a variable that stands as a condition itself (entity(x, x.n > 0, False), entity(b, b) over [True, False]) holds for every value")
+    for q in sorted(judged - set(const_false)):
+        r.ok(f"{prog.functions[q].short}#every-own-value-judged", f"{prog.functions[q].module.relpath}:{prog.functions[q].node.lineno}", "", "no emission of an own value with a constant flag")
     return r
 
 
